@@ -221,6 +221,10 @@ pub enum ConnectionError {
     /// Invalid URI for the connection
     #[error("invalid URI")]
     InvalidUri(#[from] UriError),
+
+    /// The HTTP version of the request is not supported
+    #[error("unsupported HTTP version: {0:?}")]
+    UnsupportedVersion(http::Version),
 }
 
 #[cfg(test)]
